@@ -1274,6 +1274,10 @@ func (g *gen) addExamples(m *Message) {
 		switch {
 		case f.Kind == KString:
 			ex = []string{"alpha", "beta gamma", "δ"}
+			if !g.p.MockShape && g.oneIn(3, "yamlhostile") && !g.avoid("examples_untagged_yaml_scalars") {
+				ex = append(ex, pick(g, []string{"123", "no", "true", "null", "1e3", "~", "2001-12-14", "a: b", "#c", "on"}, "hostileex"))
+				g.tagf("examples:yaml_hostile")
+			}
 		case f.Kind.IsInt():
 			if f.Kind != KInt64 && f.Kind != KInt32 && g.avoid("mock_examples_unhandled_kinds") {
 				continue
